@@ -37,7 +37,8 @@ Inductive resp :=
 | RUpdate (n : cnotif)
 | RSync
 | RError
-| RUnset.                               (* response oneof not set *)
+| RUnset                                (* response oneof not set *)
+| RFail.                                (* not a response: the stream's Recv returns an error (not io.EOF) here *)
 
 Inductive qtype := QOnce | QPoll | QStream.
 
@@ -60,6 +61,7 @@ Definition err_json : N := 3.           (* deprecated JSON value does not parse 
 Definition err_unsupported : N := 4.    (* deprecated value of another encoding *)
 Definition err_response : N := 5.       (* error response *)
 Definition err_unknown : N := 6.        (* unknown response type *)
+Definition err_stream : N := 7.         (* the stream failed *)
 
 Section Recv.
 Variable jv : string -> bool.
@@ -120,6 +122,7 @@ Fixpoint recv_deletes (prefix : path) (ds : list gpath) : list event * outcome u
     (client.ErrStopReading); [Ok false]: continue. *)
 Definition default_recv (qt : qtype) (r : resp) : list event * outcome bool :=
   match r with
+  | RFail => ([], Err err_stream)       (* not reached: [run] ends before the handler *)
   | RUnset => ([], Err err_unknown)
   | RError => ([], Err err_response)
   | RSync =>
@@ -145,6 +148,7 @@ Fixpoint run (qt : qtype) (connected : bool) (rs : list resp)
   : list event * list resp * outcome unit :=
   match rs with
   | [] => ([], [], Ok tt)                               (* io.EOF *)
+  | RFail :: rest => ([], rest, Err err_stream)        (* Client.Recv returns the error as it is *)
   | r :: rest =>
       let pre := if connected then [] else [EConnected] in
       match default_recv qt r with
@@ -184,6 +188,7 @@ Definition err_mgr_error : N := 2.
 
 Definition manager_handle (r : resp) : outcome mgr_event :=
   match r with
+  | RFail => Err err_mgr_nil            (* never handed to the handler *)
   | RUnset => Err err_mgr_nil
   | RError => Err err_mgr_error
   | RSync => Ok MSync
